@@ -43,7 +43,7 @@ def configs(tier, seed):
     from harness import pipeline as pl
 
     out = []
-    for c in c02.configs(tier, seed):
+    for c in c02.configs(tier, seed, n_random=8 if tier == "quick" else 40):
         c = dict(c)
         if pl.has_label_collision(c):
             continue
